@@ -5,7 +5,10 @@
   Quantifier: all sequences of multi-bulk commands, arbitrary binary / empty /
   arbitrarily long arguments, any argument count ≥ 1, any start offset.
   `WF c` only says what every Go value satisfies (slice lengths below 2^63)
-  plus "the command name is not empty" (`ParseArgs` rejects an empty name).
+  plus "the command name is not empty" (`ParseArgs` rejects an empty name) and
+  "the command name is ASCII" (Go lower-cases it with `strings.ToLower`, which
+  is byte-wise only on ASCII; the model and the harness are restricted to the
+  same domain). Arguments are arbitrary bytes.
   Buffer sizes and read fragmentation are not in the theorems (bufio is in the
   trusted base); they are exercised by the correspondence harness.
 -/
@@ -65,6 +68,40 @@ theorem decodeAll_prefix (start : Nat) (s : List (List Bytes)) (tail : Bytes) (h
       = (s.map cmdOf).zip (boundaries start s) :=
   decodeAll_stream_prefix start s tail h
 
+/-- **Truncation.** A command cut anywhere before its last byte is never
+    reported as a command: the decoder ends with `io.EOF` or `io.ErrUnexpectedEOF`. -/
+theorem decodeOne_truncated (c : List Bytes) (h : WF c) (k : Nat) (hk : k < (encodeCmd c).length) :
+    decodeOne ((encodeCmd c).take k) = .error .eof ∨ decodeOne ((encodeCmd c).take k) = .error .ueof :=
+  decodeOne_trunc c h k hk
+
+/-- a stream cut inside its last command: exactly the complete commands are
+    reported, with their boundaries, nothing is invented from the partial one,
+    and the loop ends with an end-of-input error -/
+theorem decodeAll_truncated (start : Nat) (s : List (List Bytes)) (c : List Bytes) (k : Nat)
+    (hs : ∀ c ∈ s, WF c) (hc : WF c) (hk : k < (encodeCmd c).length) :
+    decodeAll start (s.flatMap encodeCmd ++ (encodeCmd c).take k)
+        = ((s.map cmdOf).zip (boundaries start s), .eof) ∨
+    decodeAll start (s.flatMap encodeCmd ++ (encodeCmd c).take k)
+        = ((s.map cmdOf).zip (boundaries start s), .ueof) :=
+  decodeAllFrom_trunc start 0 s c k hs hc hk
+
+/-- a decoder whose counter already stands at `pre` (a long-lived connection)
+    keeps exact offsets: boundaries are simply shifted by `pre` -/
+theorem decodeAllFrom_offsets (start pre : Nat) (s : List (List Bytes)) (h : ∀ c ∈ s, WF c) :
+    decodeAllFrom start pre (s.flatMap encodeCmd)
+      = ((s.map cmdOf).zip (boundaries (start + pre) s), .eof) :=
+  decodeAllFrom_stream start pre s h
+
+/-- every reported offset lies within the stream, so if the end of the stream
+    fits an int64 then so does every offset the tool computes (no wrap-around is
+    needed to explain any reported value) -/
+theorem decodeAll_offsets_int64 (start : Nat) (s : List (List Bytes)) (h : ∀ c ∈ s, WF c)
+    (hb : start + (s.flatMap encodeCmd).length < 2^63) :
+    ∀ p ∈ (decodeAll start (s.flatMap encodeCmd)).1, p.2 < 2^63 := by
+  intro p hp
+  rw [decodeAll_offsets start s h] at hp
+  exact Nat.lt_of_le_of_lt (expected_snd_le start s p hp) hb
+
 /-- `proto.Writer.WriteArgs` produces the RESP framing of the arguments' payloads -/
 theorem writeArgs_eq_encodeCmd (as : List Arg) : writeArgs as = encodeCmd (as.map Arg.payload) :=
   Resp.writeArgs_eq_encodeCmd as
@@ -90,7 +127,15 @@ theorem decodeResp_offset_exact (fuel depth : Nat) (inp : Bytes) (off : Nat)
 
 -- SET k "\r\n$" : a binary argument containing protocol bytes; followed by more stream
 example : WF [[83,69,84],[107],[13,10,36]] := by
-  refine ⟨by decide, by decide, ?_⟩; intro a ha; simp at ha; rcases ha with rfl | rfl | rfl <;> decide
+  refine ⟨by decide, by decide, ?_, ?_⟩
+  · intro a ha; simp at ha; rcases ha with rfl | rfl | rfl <;> decide
+  · intro b hb; simp at hb; rcases hb with rfl | rfl | rfl <;> decide
+-- cut after 20 of 29 bytes (inside the second bulk): io.ErrUnexpectedEOF; cut inside a length line: io.EOF
+example : decodeOne ((encodeCmd [[83,69,84],[107],[13,10,36]]).take 19) = .error .ueof := by decide
+example : decodeOne ((encodeCmd [[83,69,84],[107],[13,10,36]]).take 15) = .error .eof := by decide
+-- a decoder that has already counted 2^32 - 3 bytes
+example : decodeAllFrom 0 4294967293 (encodeCmd [[80,73,78,71]]) =
+    ([(⟨[112,105,110,103], []⟩, 4294967307)], .eof) := by decide
 example : decodeOne (encodeCmd [[83,69,84],[107],[13,10,36]] ++ [42,49]) =
     .ok (⟨[115,101,116], [[107],[13,10,36]]⟩, 29, [42,49]) := by decide
 -- empty argument
